@@ -12,8 +12,12 @@ every emitted document and every accepted document is compared in both direction
 Proved here, for all byte strings: the context-specific percent-encoding claims of the ROR2
 grammar (a string token never contains a raw structural byte in any of the three contexts, is
 never empty, the empty string is written as `''` and nothing else is), and how the JSON string
-writer treats every ASCII byte. The whole-document theorem `Json.parse (renderJson d) = tree d`
-is not proved yet; until then that direction is decided by the harness only (level note). -/
+writer treats every ASCII byte; and for whole documents: everything the compact JSON writer emits
+is accepted by the strict parser and parses to exactly the document's tree
+(`c03_json_output_parses_to_its_tree`), and everything the ROR2 writers emit is the rendering of a
+well-formed raw-token tree (`c03_ror2_output_is_wellformed_tree`), which the reader reads as that
+tree (`bridge`, Proofs/Ror2Bridge.lean). The pretty JSON writer and the "conversely" direction
+(reference documents in other legal spellings) are decided by the harness. -/
 namespace Restli.Codec
 open Escape
 
@@ -81,8 +85,38 @@ theorem c03_json_ascii_bytes (c : UInt8) :
     repeat' split
     all_goals rfl
 
-/-! the independent strict parser accepts what the JSON writer model emits and rejects near
-misses (closed examples; the general theorem is future work) -/
+/-- **every compact JSON document the library emits is well-formed and denotes its tree**: the
+strict RFC 8259 parser accepts `renderJson d` and returns exactly `treeOf jsonEnc d` (keys are the
+field names / map keys / member aliases as written, bytes one code point per byte, enums their
+symbols, NaN and the infinities the three reserved strings, integers and finite floats number
+tokens), for every document whose strings and keys are valid UTF-8; `NumLaws` is the assumption
+that strconv's float text is one JSON number token -/
+theorem c03_json_output_parses_to_its_tree (N : NumLaws) (d : Doc) (hok : DocTextOK d) :
+    Json.parse (renderJson d) = some (treeOf jsonEnc d) :=
+  parse_renderJson N d hok
+
+/-- the JSON string writer against the strict parser, for every valid UTF-8 byte string and
+whatever follows: quotes, backslashes, control characters, `<`, `>`, `&`, U+2028/U+2029 and all
+multi-byte sequences come back byte for byte -/
+theorem c03_json_string_roundtrip (s rest : Bytes) (fuel : Nat) (hv : Utf8.validUtf8 s = true) :
+    Json.parseValue (fuel + 1) (Json.jsonString s ++ rest) = some (.str s, rest) :=
+  Json.parseValue_jsonString s rest fuel hv
+
+/-- **every ROR2 document the library emits follows the grammar**: it is the rendering
+(`(k:v,…)`, `List(…)`, tokens) of a raw-token tree all of whose tokens and keys are non-empty and
+free of raw structural bytes, in any flavour whose tables are sound -/
+theorem c03_ror2_output_is_wellformed_tree (t : Tables) (ht : TablesOk t) (F : FloatLaws) (doc : Doc) :
+    (renderRor2 (escapeWith t.pathSafe) doc = renderRaw (rawOf (escapeWith t.pathSafe) doc) ∧
+      RawWF (rawOf (escapeWith t.pathSafe) doc)) ∧
+    (renderRor2 (escapeWith t.querySafe) doc = renderRaw (rawOf (escapeWith t.querySafe) doc) ∧
+      RawWF (rawOf (escapeWith t.querySafe) doc)) ∧
+    (renderRor2 (replaceWith t.headerEscapes) doc = renderRaw (rawOf (replaceWith t.headerEscapes) doc) ∧
+      RawWF (rawOf (replaceWith t.headerEscapes) doc)) :=
+  ⟨⟨renderRor2_eq_renderRaw _ doc, rawOf_wf _ false (escLaws_path t ht) F doc⟩,
+   ⟨renderRor2_eq_renderRaw _ doc, rawOf_wf _ true (escLaws_query t ht) F doc⟩,
+   ⟨renderRor2_eq_renderRaw _ doc, rawOf_wf _ false (escLaws_header t ht) F doc⟩⟩
+
+/-! the independent strict parser rejects near misses (closed examples) -/
 example : (match Json.parse (Json.jsonString [97, 34, 92, 10, 0, 60, 0xC3, 0xA9]) with
     | some (.str b) => b == [97, 34, 92, 10, 0, 60, 0xC3, 0xA9] | _ => false) = true := by decide
 example : (Json.parse [123, 34, 97, 34, 58, 49, 44, 125]).isNone = true := by decide     -- trailing comma
